@@ -139,6 +139,7 @@ class W2World(World):
         self.values_rng = streams.get('values')
         self.idc = 0
         self.handles = {}        # retained service handles: name -> NetworkService object
+        self.if_handles = {}     # retained port handles: 'node/interface' -> Interface object
         self.checkpoints = []    # list of (graph_id, abstract state at checkpoint time)
         from fim.graph.networkx_property_graph import NetworkXGraphStorage, NetworkXGraphImporter
         from fim.graph.networkx_property_graph_disjoint import NetworkXGraphStorageDisjoint, \
@@ -172,11 +173,11 @@ class W2World(World):
         if cfg.get('second_session'):
             tb = SubstrateTopology(importer=self.imp) if cfg['flavour'] == 'substrate' else \
                 ExperimentTopology(importer=self.imp)
-            self.sessions['B'] = {'topo': tb, 'handles': {}, 'checkpoints': [], '_last_struct': None, 'since_views': 0,
-                                  'queue': []}
+            self.sessions['B'] = {'topo': tb, 'handles': {}, 'if_handles': {}, 'checkpoints': [], '_last_struct': None,
+                                  'since_views': 0, 'queue': []}
             self.by_pre = other_graphs_state(self.imp, self.gid())
 
-    SESSION_FIELDS = ('topo', 'handles', 'checkpoints', '_last_struct', 'since_views', 'queue')
+    SESSION_FIELDS = ('topo', 'handles', 'if_handles', 'checkpoints', '_last_struct', 'since_views', 'queue')
 
     def activate(self, sess):
         if sess == self.active or sess not in self.sessions:
@@ -225,6 +226,7 @@ class W2World(World):
                 fid = self.tolerated(v) if v.prop != self.prop else None
                 if fid:
                     self.stats.inc('foreign_known_tolerated.%s' % fid)
+                    self.tolerated_names = True
                 else:
                     keep.append(v)
             self.pending = keep
@@ -280,8 +282,8 @@ class W2World(World):
             s = w2_ops.generate(self, rng, 'checkpoint', st)
             if s is not None:
                 return s
-        if self.prop in ('C08', 'C07') and not self.avoid and rng.random() < 0.06:
-            seq = w2_ops.twin_port_sequence(self, rng, st)
+        if self.prop in ('C08', 'C07', 'C10') and not self.avoid and rng.random() < 0.06:
+            seq = w2_ops.twin_port_sequence(self, rng, st, then_validate=self.prop == 'C10')
             if seq:
                 self.queue = seq[1:]
                 return seq[0]
@@ -366,6 +368,7 @@ class W2World(World):
         from . import w2_rules
         for sess in sorted(self.sessions):
             self.activate(sess)
-            if self.since_views and self._last_struct is not None:
+            if self.since_views and self._last_struct is not None and not getattr(self, 'tolerated_names', False):
+                # (name-keyed views of a model with the tolerated derived-name collisions are not judged)
                 w2_rules.check_views(self, self._last_struct, 'end')
                 self.end_step()
